@@ -251,7 +251,7 @@ class Sender:
                     return T.R(m)
         if t == self.get_term:
             return T.R("entry")
-        if t[0] == "call" and sym.strip_all_generics(t[1]).endswith("::contains") and t[2] and t[2][0] == ("ptr", SCHED, ()):
+        if t[0] == "call" and sym.strip_all_generics(t[1]).endswith("::contains") and t[2] and t[2][0] in (("ptr", SCHED, ()), ("obj", SCHED)):
             return T.R("scheduled")
         if t[0] == "call" and t[1].endswith("::next") and t == self._next_term():
             return T.R("item")
